@@ -31,7 +31,7 @@ VARIABLES pc, rec
 Init == pc = "pick" /\ rec = <<>>
 Pick == /\ pc = "pick"
         /\ \E c \in SamplesL, m \in Rotations24, o \in Disps, ca \in Carriers, sp \in Spells :
-              /\ (ca \in {"trclinline", "trclstar"} => sp \in {"12", "star"})
+              /\ (ca \in {"trclinline", "trclstar"} => sp \in {"12", "13", "star"})
               /\ (ca = "trclstar" <=> sp = "star") \/ ca \notin {"trclinline", "trclstar"}
               /\ rec' = [card |-> c, tr |-> [o |-> o, m |-> m], carrier |-> ca, spell |-> sp]
         /\ pc' = "emit"
